@@ -213,6 +213,8 @@ pub const PROBES: [&str; 20] = [
 pub const GENERATED_PROBES: [&str; 8] = ["1 + 1", "3 degC", "10 degF -> degR", "search ans", "search u0", "3 s", "H2O", "3 ba -> degC"];
 
 pub struct Env {
+    /// a context without definitions (sizes names a text defines itself)
+    pub empty: rink_core::Context,
     pub sup: RefCell<Supervised>,
     pub known: BTreeSet<String>,
     /// set when the failure being shrunk is an overrun (only then do overruns count while shrinking)
@@ -221,6 +223,7 @@ pub struct Env {
 
 pub fn mk_env(known: BTreeSet<String>) -> Env {
     Env {
+        empty: rink_core::Context::new(),
         sup: RefCell::new(Supervised::new(vec![])),
         known,
         hang_mode: std::cell::Cell::new(false),
@@ -775,6 +778,10 @@ pub fn check(env: &Env, c: &Case, st: &mut Stats) -> CaseResult {
             }
             if crate::oracle::cost::has_huge_power(text) {
                 st.excluded("text raises to a literal power above 5000 (an astronomically large number, C04's resource clause)");
+                return Ok(());
+            }
+            if let Some(why) = crate::oracle::cost::defs_expensive(&env.empty, text) {
+                st.excluded(&format!("a definition in the text is expensive by C04's static bound: {}", why));
                 return Ok(());
             }
             st.eval();
